@@ -86,6 +86,10 @@ func (d *rawDecoder) Scan(ctx context.Context) (DecodedAmmo, error) {
 		}
 
 		data, err = d.reader.ReadString('\n')
+		if err == io.EOF && len(strings.TrimSpace(data)) > 0 {
+			// Last line can be terminated by EOF instead of '\n'. Next read returns io.EOF.
+			err = nil
+		}
 		if err == io.EOF {
 			d.passNum++
 			if d.config.Passes != 0 && d.passNum >= d.config.Passes {
